@@ -196,6 +196,7 @@ static void unicodeEncoding(const Enc& e, const json& plan, bool thorough, unsig
     // quick: everything for length <= 2; length 3: one call (+ limit 1), splits over the long representatives only
     product(alphaShort, lenShort, [&](const IV& s, int len) {
         bool all = thorough || len <= 2 || e.kind != "utf8";
+        if (!all && e.svc == "icu" && !inLong(s)) return;      // quick: converters from the service see length 3 over the long representatives only
         perSeq(s, len, all || len == 3, all || inLong(s));
     });
     if (lenLong > lenShort)
@@ -275,7 +276,7 @@ static void singleByteEncoding(const Enc& e, const json& plan, bool thorough) {
         }
     }
     // every BMP code point to the encoder (quick: dense below U+3000, every 13th above), supplementary samples
-    for (unsigned c = 0; c < 0x10000; c += (thorough || c < 0x500 || (c >= 0x2000 && c < 0x2700) || c >= 0xFF00 ? 1 : 29)) {
+    for (unsigned c = 0; c < 0x10000; c += (thorough || c < 0x300 || (c >= 0x2000 && c < 0x2300) || c >= 0xFF00 ? 1 : 61)) {
         if (c >= 0xD800 && c <= 0xDFFF) continue;
         tt.renew();
         IV units{(int)c};
@@ -313,7 +314,7 @@ static const char* encName(XMLRecognizer::Encodings v) {
         default: return "other";
     }
 }
-static void probes(const json& plan) {
+static void probes(const json& plan, bool thorough) {
     sink.start("p-probe");
     Enc e{"", "probe", "x", "", ""};
     auto one = [&](const IV& in) {
@@ -322,15 +323,16 @@ static void probes(const json& plan) {
         e.name = encName(XMLRecognizer::basicEncodingProbe(b.data(), in.size()));
         rec(e, "probe", in, 0, IV{}, 0, "");
     };
-    std::vector<IV> alpha;
+    std::vector<IV> alpha, alpha4;
     for (int b : plan["sense"]) alpha.push_back(IV{b});
+    for (int b : plan[thorough ? "sense" : "sense4"]) alpha4.push_back(IV{b});
     std::vector<IV> canon;
     for (auto& c : plan["canon"]) canon.push_back(c.get<IV>());
-    product(alpha, 4, [&](const IV& s, int len) {
+    product(alpha, 3, [&](const IV& s, int) { one(s); sink.safePoint(); });
+    product(alpha4, 4, [&](const IV& s, int len) {
+        if (len != 4) return;
         one(s);
-        if (len == 4) {
-            for (auto& c : canon) if (c.size() >= 4 && std::equal(s.begin(), s.end(), c.begin())) one(c);
-        }
+        for (auto& c : canon) if (c.size() >= 4 && std::equal(s.begin(), s.end(), c.begin())) one(c);
         sink.safePoint();
     });
     for (auto& c : canon) for (size_t n = 0; n <= c.size(); n++) one(IV(c.begin(), c.begin() + n));
@@ -360,7 +362,7 @@ static int modeV(int argc, char** argv) {
         if (e.kind == "sb") singleByteEncoding(e, plan, thorough);
         else unicodeEncoding(e, plan, thorough, stride);
     }
-    if (only.empty()) probes(plan);
+    if (only.empty()) probes(plan, thorough);
     sink.close();
     json files = json::array();
     for (size_t i = 0; i < sink.files.size(); i++) files.push_back({sink.files[i], sink.counts[i]});
